@@ -33,6 +33,22 @@ EDGE = [
 ]
 
 
+# An "expression zoo": user expressions of every syntactic class syn knows, in every place of a pattern where an expression (or
+# something that may be taken for one) can stand.  The crate's parser sees them only through syn, but its own dispatch looks at
+# their first tokens (`!`, `<`, `-`, `&`, `*`, `(`, `[`, `{`, `|`, `move`, a path, a literal, `..`): what is accepted, as which
+# form, with which spans and ids must be what the parser model says.
+ZOO_EXPRS = ["-5", "!flag", "&x", "&mut x", "*p", "x as u8", "a + b * 2", "x.len()", "f(1)(2)", "vec![1, 2]", 'format!("{}", 1)', "{ 1 }",
+             "if c { 1 } else { 2 }", "match k { _ => 1 }", "unsafe { g() }", "a::<u8>::B", "<T as Tr>::C", "Vec::<Vec<u8>>::new()", "x?", "y.await",
+             "|a| a", "move || 1", "|a: &u8, b| a", "(1, 2)", "(1)", "[1, 2]", "[0; 3]", "S { a: 1 }", "'c'", 'b"x"', "1..2", "a..=b", "..b", "a..",
+             'r#"s"#', "r#type", "self", "Self::X", "crate::X", "super::X", "x.0", "x.0.1", "x[0]", "true", "1e3", "0x1f", "1_000u64", "async { 1 }",
+             "const { 1 }", "x = 5", "a && b || c", "a < b", "a == b", "a as f64 > 0.5", "a >> 1", "return 1", "break", "loop { }", "-x.y", "&*z", "!!w",
+             "a.b::<u8>()", "m!{ 1 }", "m!(1)", "x.await?", "- 5", "5 .. 6", "K", "k", "_x", "1 + ", "+ 1"]
+ZOO_FORMS = ["{E}", "== {E}", "> {E}", "!= {E}", "<= {E}", "=~ {E}", '#{{ {E}: 1 }}', '#{{ {E}: 1, .. }}', "S {{ f[{E}]: 1, .. }}", "S {{ f.m({E}): 1, .. }}", "S {{ f.m(1, {E}): 1, .. }}",
+             "|v| {E}", "S {{ a: {E} }}", "S {{ a: {E}, b: 2, .. }}", "({E}, 1)", "(0: {E}, 1)", "[{E}]", "[{E}, ..]", "#({E})", "#({E}, ..)", "Some({E})", "_ {{ a: {E}, .. }}",
+             '#{{ "k": {E} }}', "{E}..=9", "1..{E}"]
+ZOO = ["x, " + f.format(E=e) for e in ZOO_EXPRS for f in ZOO_FORMS]
+
+
 def gen_texts(rng, n):
     out = []
     for _ in range(n):
@@ -62,7 +78,7 @@ def run(ck, n_gen=None):
     rng = random.Random("t2/%d" % ck.seed)
     texts = [t for _, t in corpus.repo_invocations()]
     n_corpus = len(texts)
-    texts += EDGE + gen_texts(rng, n_gen)
+    texts += EDGE + ZOO + gen_texts(rng, n_gen)
     # the cache is keyed by the tree, by the inputs and by the model (driver binary)
     h = hashlib.sha256("\n".join(texts).encode())
     try:
@@ -79,7 +95,7 @@ def run(ck, n_gen=None):
         return dict(stats={"corpus": n_corpus, "edge": len(EDGE), "generated": n_gen, "accepted": 0, "rejected": 0, "panicked": 0, "tokens_compared": 0, "unavailable": len(texts)},
                     mismatches=[], n_mismatches=0)
     lreq, idx = [], []
-    stats = {"corpus": n_corpus, "edge": len(EDGE), "generated": n_gen, "accepted": 0, "rejected": 0, "panicked": 0, "tokens_compared": 0}
+    stats = {"corpus": n_corpus, "edge": len(EDGE), "zoo": len(ZOO), "generated": n_gen, "accepted": 0, "rejected": 0, "panicked": 0, "tokens_compared": 0}
     mism = []
     for k, o in enumerate(outs):
         f = o.split("\t")
@@ -88,7 +104,7 @@ def run(ck, n_gen=None):
             lreq.append("expand\t%s\t%s" % (f[1], f[2]))
             idx.append(k)
             if f[5] != "valid-block":
-                mism.append(dict(text=texts[k], part="validity", detail="the expansion does not parse as a Rust block"))
+                mism.append(dict(text=texts[k], part="validity", detail="the expansion does not parse as a Rust block", ast=f[1][:20000]))
         elif f[0] == "panic":
             stats["panicked"] += 1
             # the model must predict the panic
@@ -228,5 +244,5 @@ def record(ck, res, parts, what):
                    {k: v for k, v in st.items()},
                    samples=[dict(invocation=m["text"][:200], part=m["part"], detail=m["detail"][:300]) for m in mm[:2]] or
                            [dict(note="all %d accepted invocations agree (%d tokens compared)" % (st["accepted"], st["tokens_compared"]))],
-                   rule="every assert_struct! invocation in the repository's tests, examples and docs (%d) + %d hand-written edge patterns + %d seeded generated patterns; accepted inputs are distinct texts" % (st["corpus"], st["edge"], st["generated"]))
+                   rule="every assert_struct! invocation in the repository's tests, examples and docs (%d) + %d hand-written edge patterns + %d expression-zoo inputs (user expressions of every syntactic class in every place an expression can stand) + %d seeded generated patterns; accepted inputs are distinct texts" % (st["corpus"], st["edge"], st.get("zoo", 0), st["generated"]))
     return mm
